@@ -47,7 +47,18 @@ func (w *World) StartFault(t *Tun, kind string) {
 			w.WaitUntil("fault-ready", func() bool { return true })
 			w.Log(Event{Actor: "fault", Op: kind})
 			t.RevSrv.Stop()
-			w.Log(Event{Actor: "fault", Op: "stop-returned"})
+			// which handler contexts are cancelled at the moment Stop returns?
+			live := ""
+			w.mu.Lock()
+			for k, v := range w.Vals {
+				if len(k) > 5 && k[:5] == "hctx:" {
+					if c, ok := v.(context.Context); ok && c.Err() == nil {
+						live += k[5:] + ","
+					}
+				}
+			}
+			w.mu.Unlock()
+			w.Log(Event{Actor: "fault", Op: "stop-returned", Detail: "live-handler-contexts=" + live})
 		case kind == "gstop":
 			w.WaitUntil("fault-ready", func() bool { return true })
 			w.Log(Event{Actor: "fault", Op: kind})
